@@ -73,9 +73,10 @@ def tri(test, flagname, val, call_hook=None):
 
 
 class Effects:
-    def __init__(self, prog, flag=None):
+    def __init__(self, prog, flag=None, disjunctive=False):
         self.prog = prog
         self.flag = flag
+        self.disjunctive = disjunctive
         self._summ = {}
         self._active = set()
 
@@ -217,7 +218,7 @@ class Effects:
         # one run per value of the flag keeps aliasing and flag value correlated
         out = {"writes": [], "returns": set(), "cfg": None}
         for v in (True, False):
-            r = self._analyse1(f, tracked, frozenset([v]))
+            r = self._analyse1(f, tracked, frozenset([v]), disjunctive=self.disjunctive)
             out["cfg"] = r["cfg"]
             out["returns"] |= r["returns"]
             for w in r["writes"]:
@@ -368,6 +369,11 @@ class Effects:
                 val = self.roots(f, st.value, env)
                 for t in st.targets:
                     self._assign(f, t, val, env, n, st, flags_now, record, st.value)
+                if disjunctive and isinstance(st.value, ast.Constant) and isinstance(st.value.value, bool):
+                    # a local switch set to a literal: remembered, so that a later `if switch:` follows the path it was set on
+                    for t in st.targets:
+                        if isinstance(t, ast.Name) and t.id != flag:
+                            env[t.id] = frozenset([("const", st.value.value)])
                 if flag:
                     for t in st.targets:
                         if isinstance(t, ast.Name) and t.id == flag:
@@ -405,6 +411,19 @@ class Effects:
                     if isinstance(t, ast.Subscript):
                         record(n, st, self.roots(f, t.value, env), flags_now, "item deletion")
             new_env = frozenset(env.items())
+            if disjunctive and isinstance(st, (ast.If, ast.While)):
+                t_ = st.test
+                neg_ = False
+                while isinstance(t_, ast.UnaryOp) and isinstance(t_.op, ast.Not):
+                    t_, neg_ = t_.operand, not neg_
+                if isinstance(t_, ast.Name):
+                    cv = env.get(t_.id)
+                    if cv is not None and len(cv) == 1 and next(iter(cv))[0] == "const":
+                        truth = bool(next(iter(cv))[1]) != neg_
+                        d = edges_state(T=(new_env, orig, cur) if truth else None, F=(new_env, orig, cur) if not truth else None)
+                        d[None] = (new_env, orig, cur)
+                        d["exc"] = (new_env, orig, cur)
+                        return d
             if isinstance(st, (ast.If, ast.While)) and flag:
                 outs = {}
                 for lbl, want in (("T", True), ("F", False)):
